@@ -269,12 +269,21 @@ package channel
 //@   ensures #failed-open-closes-the-transport result != nil && implOpened ==> implClosed
 
 // assumed here, verified nowhere yet: the two outer exchange functions used by the network driver
-//@ func (*Channel).GetPrompt
-//@   noverify
+//@ func (*Channel).GetPrompt [C05 C06]
 //@   requires RI(c.Q) && c.PromptSearchDepth >= 0
 //@   ensures RI(c.Q)
 //@   modifies wire, rd, c.Q.queue, c.Q.depth, chan(c.Q.depthChan), quiet, alloc()
-//@   ensures result.1 != nil ==> len(result.0) == 0
+//@   chaninv cr v => v != nil && RI(c.Q)
+//@   at call! WithTimeout#1 assert #bounded-by-the-connection-wide-timeout arg1 == c.TimeoutOps
+//@   ensures #nil-payload-on-error result.1 != nil ==> len(result.0) == 0
+//@   at return assert #timeout-class result.1 != nil && r != nil && isErr(r.err, context.DeadlineExceeded) ==> isErr(result.1, util.ErrTimeoutError)
+//@ chanmode (*Channel).GetPrompt$1:cr count
+//@ func (*Channel).GetPrompt$1 [C05 C06]
+//@   requires RI(c.Q) && c.PromptSearchDepth >= 0 && cr != nil && !closed(cr) && cr != c.Q.depthChan
+//@   chaninv cr v => v != nil && RI(c.Q)
+//@   modifies wire, rd, c.Q.queue, c.Q.depth, chan(c.Q.depthChan), chan(cr), quiet, alloc()
+//@   ensures #exactly-one-result chlen(cr) == old(chlen(cr)) + 1 && closed(cr)
+//@   at call! WriteReturn#1 assert #the-prompt-is-asked-for-with-a-bare-return wire == old(wire)
 //@ func (*Channel).SendInteractive [C05 C06]
 //@   requires RI(c.Q) && c.PromptSearchDepth >= 0 && (forall k int :: 0 <= k && k < len(events) ==> events[k] != nil)
 //@   ensures RI(c.Q)
